@@ -316,6 +316,7 @@ func CheckC12(c *Ctx) {
 	run.Explanation = "The resulting repository contents and idempotence depend on repository semantics and are NOT decided. Decided structurally on the worker closure of Sync.Run: the start date is LastDate+1 day when the target has the asset and the default start date otherwise, and that value is what is passed to source.GetSince, whose result is what is appended to the target; every error branch inside the per-asset loop records the failure and continues with the next asset (no return/break: one failing asset does not stop the others), and Run returns a non-nil error iff a failure was recorded; wg.Wait() precedes the final return; all assets flow through one channel consumed by all workers. The SSA shared-write analysis shows that no worker writes memory shared with the other workers without synchronisation (the failure flag; the target repository through the Repository interface, resolved by CHA), and every method of InMemoryRepository touches its map under the mutex."
 	run.Trusted = []string{"go/types", "go/ssa + CHA (x/tools v0.29.0)", "sync/atomic and sync.Mutex semantics"}
 	c.syncCommandWiring()
+	c.assetNameCodec() // asset lists taken from a file-system target
 	fi := c.fn("asset", "Sync", "Run")
 	if fi == nil {
 		return
@@ -695,9 +696,12 @@ func isParamOf(fi *load.FuncInfo, v *types.Var) bool {
 func CheckC13(c *Ctx) {
 	run := c.Run
 	run.Technique = "typed-AST protocol/typestate lints on Backtest.Run and Backtest.worker (Begin → per asset: AssetBegin → one Write per strategy → AssetEnd → End after Wait) + SSA shared-write analysis rooted at `go b.worker` + lock-consistency lints on both report implementations + comparator totality lint"
-	run.Explanation = "Equality of the reported numbers with a direct evaluation is NOT decided. Decided structurally: Begin is called before any worker starts and End after wg.Wait(); in the worker, for every asset, AssetBegin precedes the strategy loop and AssetEnd follows it; each iteration of the strategy loop calls report.Write exactly once, with the outputs of strategy.ComputeWithOutcome for that strategy on a fresh SliceToChan of that asset's snapshots (no iteration can skip it); all assets flow through one channel shared by the workers, and the loop over that channel is left only when it is exhausted (no return, break, goto, panic or process exit in its body: an asset that cannot be loaded is skipped, it does not stop the worker). The SSA shared-write analysis shows that nothing reachable from `go b.worker` (including both bundled Report implementations, resolved through the interface by CHA) writes shared memory without holding a mutex, and in both report types every access to the shared maps/slices happens under the mutex. Functions passed to slices.SortFunc / sort.Slice must be total orders on the compared field: no conversion of a floating-point difference to int (results closer than 1 would compare equal, so the entry presented as best need not be maximal). No run crashes: every slice index in package backtest is the key of a range over that slice, a constant below the constant element count of helper.Duplicate, or protected by a length check; the rule is exercised on a built-in positive example on every run."
+	run.Explanation = "Equality of the reported numbers with a direct evaluation is NOT decided. Decided structurally: Begin is called before any worker starts and End after wg.Wait(); in the worker, for every asset, AssetBegin precedes the strategy loop and AssetEnd follows it; each iteration of the strategy loop calls report.Write exactly once, with the outputs of strategy.ComputeWithOutcome for that strategy on a fresh SliceToChan of that asset's snapshots (no iteration can skip it), and ComputeWithOutcome hands back the strategy's own action stream, untransformed, with Outcome(closings of the same snapshots, those actions); all assets flow through one channel shared by the workers, and the loop over that channel is left only when it is exhausted (no return, break, goto, panic or process exit in its body: an asset that cannot be loaded is skipped, it does not stop the worker). The SSA shared-write analysis shows that nothing reachable from `go b.worker` (including both bundled Report implementations, resolved through the interface by CHA) writes shared memory without holding a mutex, and in both report types every access to the shared maps/slices happens under the mutex. Functions passed to slices.SortFunc / sort.Slice must be total orders on the compared field: no conversion of a floating-point difference to int (results closer than 1 would compare equal, so the entry presented as best need not be maximal). No run crashes: every slice index in package backtest is the key of a range over that slice, a constant below the constant element count of helper.Duplicate, or protected by a length check; the rule is exercised on a built-in positive example on every run."
 	run.Trusted = []string{"go/types", "go/ssa + CHA", "sync.Mutex semantics"}
 	runFi := c.fn("backtest", "Backtest", "Run")
+	// what a worker writes is what ComputeWithOutcome hands back: the strategy's own actions and
+	// Outcome(closings, those actions)
+	c.computeWithOutcomeWiring("backtest/direct-evaluation")
 	wFi := c.P.Method("backtest", "Backtest", "worker")
 	if wFi == nil {
 		wFi = c.goMethod(runFi) // the method Run starts with `go`, whatever it is called now
@@ -748,6 +752,9 @@ func CheckC13(c *Ctx) {
 		c.violate("backtest/protocol", site+".worker", "asset loop", wFi.Decl.Pos(), "the worker no longer ranges over the shared channel of asset names (undecided, fails closed)")
 		return
 	}
+	// the per-asset work may live in unexported methods of Backtest: analyse the loop as if their
+	// bodies stood in it
+	assetBody := &ast.BlockStmt{Lbrace: assetLoop.Body.Lbrace, Rbrace: assetLoop.Body.Rbrace, List: c.flattenCalls(info, assetLoop.Body.List, 3)}
 	// one asset that cannot be processed does not end the worker: the loop over the shared channel
 	// is left only when the channel is exhausted
 	drains := true
@@ -783,11 +790,11 @@ func CheckC13(c *Ctx) {
 			return true
 		})
 	}
-	leave(assetLoop.Body, false)
+	leave(assetBody, false)
 	run.Oblige(drains)
 	var stratLoop *ast.RangeStmt
 	idx := map[string]int{}
-	for i, s := range assetLoop.Body.List {
+	for i, s := range assetBody.List {
 		switch x := s.(type) {
 		case *ast.RangeStmt:
 			stratLoop = x
@@ -816,7 +823,7 @@ func CheckC13(c *Ctx) {
 		return
 	}
 	// nothing between the strategy loop and AssetEnd can skip AssetEnd
-	for _, s := range assetLoop.Body.List[idx["loop"]+1 : idx["AssetEnd"]] {
+	for _, s := range assetBody.List[idx["loop"]+1 : idx["AssetEnd"]] {
 		ast.Inspect(s, func(n ast.Node) bool {
 			if b, ok := n.(*ast.BranchStmt); ok && (b.Tok == token.CONTINUE || b.Tok == token.BREAK) {
 				c.violate("backtest/protocol", site+".worker", "AssetEnd skipped", b.Pos(), "AssetEnd can be skipped after the strategies of an asset were written")
